@@ -16,7 +16,9 @@ With the parser model, proved here for all inputs (numbering of the brief):
 4. `C19_scoped_flags_restore` (+ `C19_scoped_flags_outer`, `C19_inline_flags_stay`), and the
    negative theorem `C19_F19_flags_leak` / `C19_F19_trees_differ` (known finding F19).
 5. `C19_relative_backref` (and `C19_absolute_backref` for comparison).
-1. `C19_possessive_is_atomic`: at the end of the file.
+1. `parsePiece_suffix` / `C19_possessive_is_atomic` / `C19_not_possessive` (the quantifier-suffix
+   handling of `parse_piece`: `Xq+` is `AtomicGroup` of the very node `Xq` is) and
+   `C19_atomic_group` (`(?>Y)` is `AtomicGroup` of the tree of `Y`); at the end of the file.
 
 NOT proved: the two-pattern form "the pattern with a comment inserted parses to the same tree as
 the pattern without it" for arbitrary surroundings.  It is not true as an unconditional statement
@@ -726,4 +728,183 @@ example : parseStr (fun c => c.isAlphanum) "(?<n>a)\\k<n>".toList false =
     parseStr (fun c => c.isAlphanum) "(a)\\1".toList false =
     .ok ⟨.concat [.group 0 (.literal ['a'] false), .backref 1], [1], []⟩ :=
   ⟨isTree_sound (by decide +kernel), isTree_sound (by decide +kernel)⟩
+/-! ## 1. possessive quantifiers are atomic groups -/
+
+/-- the quantifier `parse_piece` reads at the byte `b` at `ix`: `(lo, hi, index of its last byte)`,
+    or none -/
+def quantAt (re : Bytes) (fl : Flags) (ix b : Nat) : Res (Option (Nat × Nat × Nat)) :=
+  if b == ch '?' then pure (some (0, 1, ix))
+  else if b == ch '*' then pure (some (0, usizeMax, ix))
+  else if b == ch '+' then pure (some (1, usizeMax, ix))
+  else if b == ch '{' then
+    match parseRepeat re fl ix with
+    | .ok (next, lo, hi) =>
+      if next == 0 then .panic "parse_piece: next - 1" else pure (some (lo, hi, next - 1))
+    | .err _ _ => pure none
+    | .cerr => pure none
+    | .panic s => .panic s
+    | .outOfFuel => .outOfFuel
+  else pure none
+
+/-- is the quantifier that ends before `ix3` followed by the lazy mark `?` -/
+def lazyAt (re : Bytes) (ix3 : Nat) : Bool := decide (ix3 < re.size) && re[ix3]? == some (ch '?')
+
+/-- the index after the optional lazy mark -/
+def afterLazy (re : Bytes) (ix3 : Nat) : Nat := if lazyAt re ix3 then ix3 + 1 else ix3
+
+/-- the node of a quantified atom -/
+def repNode (re : Bytes) (st1 : PState) (child : Expr) (lo hi ix3 : Nat) : Expr :=
+  .repeat child lo (hiOf hi) ((!lazyAt re ix3) ^^ st1.flags.swapGreed)
+
+/-- `parse_piece` with the quantifier reading named -/
+theorem parsePiece_eq (isAlnum : Char → Bool) (re : Bytes) (f : Nat) (st : PState) (ix d : Nat) :
+    parsePiece isAlnum (f + 1) re st ix d = (do
+      let (ix, child, st) ← parseAtom isAlnum f re st ix d
+      let ix ← optWs re st.flags ix
+      if ix < re.size then
+        let b ← byteAt re ix "parse_piece: bytes[ix]"
+        let q ← quantAt re st.flags ix b
+        match q with
+        | none => .ok (ix, child, st)
+        | some (lo, hi, ix) =>
+          if !isRepeatable child then .err .targetNotRepeatable ix
+          else
+            let ix ← optWs re st.flags (ix + 1)
+            if re[afterLazy re ix]? = some (ch '+') then
+              .ok (afterLazy re ix + 1, .atomic (repNode re st child lo hi ix), st)
+            else .ok (afterLazy re ix, repNode re st child lo hi ix, st)
+      else .ok (ix, child, st)) := by
+  rw [parsePiece]
+  congr 1; funext r
+  obtain ⟨ix1, child, st1⟩ := r
+  simp only
+  congr 1; funext ix2
+  split
+  · congr 1; funext b
+    unfold quantAt
+    congr 1; funext q
+    cases q with
+    | none => rfl
+    | some p =>
+      obtain ⟨lo, hi, qe⟩ := p
+      simp only
+      split
+      · rfl
+      · congr 1; funext ix3
+        have e : (decide (afterLazy re ix3 < re.size) && re[afterLazy re ix3]? == some (ch '+')) =
+            decide (re[afterLazy re ix3]? = some (ch '+')) := by
+          by_cases hp : re[afterLazy re ix3]? = some (ch '+')
+          · have := lt_size_of_get hp
+            rw [hp]; simp [this]
+          · simp [hp]
+        show (if (decide (afterLazy re ix3 < re.size) && re[afterLazy re ix3]? == some (ch '+')) = true
+          then _ else _) = _
+        rw [e]
+        by_cases hp : re[afterLazy re ix3]? = some (ch '+')
+        · simp only [hp, decide_true, ↓reduceIte]; rfl
+        · simp only [hp, decide_false, Bool.false_eq_true, ↓reduceIte]; rfl
+  · rfl
+
+/-- **the quantifier-suffix handling of `parse_piece`**: after the atom `child` and a quantifier
+    `(lo, hi)` whose last byte is at `qe`, an optional `?` makes it lazy (`afterLazy`), and then an
+    optional `+` wraps **the very node the piece would otherwise be** (`repNode`) into
+    `AtomicGroup` and consumes one more byte -/
+theorem parsePiece_suffix (isAlnum : Char → Bool) {re : Bytes} {f : Nat} {st st1 : PState}
+    {ix d ix1 ix2 b lo hi qe ix3 : Nat} {child : Expr}
+    (ha : parseAtom isAlnum f re st ix d = .ok (ix1, child, st1))
+    (hw : optWs re st1.flags ix1 = .ok ix2) (hb : re[ix2]? = some b)
+    (hq : quantAt re st1.flags ix2 b = .ok (some (lo, hi, qe)))
+    (hr : isRepeatable child = true)
+    (hw3 : optWs re st1.flags (qe + 1) = .ok ix3) :
+    parsePiece isAlnum (f + 1) re st ix d =
+      if re[afterLazy re ix3]? = some (ch '+') then
+        .ok (afterLazy re ix3 + 1, .atomic (repNode re st1 child lo hi ix3), st1)
+      else .ok (afterLazy re ix3, repNode re st1 child lo hi ix3, st1) := by
+  have hlt := lt_size_of_get hb
+  rw [parsePiece_eq]
+  simp only [ha, Res.ok_bind, hw, hlt, ↓reduceIte, byteAt, hb, hq, hr, Bool.not_true, Bool.false_eq_true,
+    hw3]
+
+/-- **C19_possessive_is_atomic**: with the atom `X` (`child`), a quantifier `q` (`*`, `+`, `?`,
+    `{n,m}`; optionally lazy), then `+`: the piece `Xq+` is `AtomicGroup(node)`, where `node` is
+    exactly the piece that `Xq` is when no `+` follows (`C19_not_possessive`), i.e. the body of
+    `(?>Xq)` (`C19_atomic_group`) -/
+theorem C19_possessive_is_atomic (isAlnum : Char → Bool) {re : Bytes} {f : Nat} {st st1 : PState}
+    {ix d ix1 ix2 b lo hi qe ix3 : Nat} {child : Expr}
+    (ha : parseAtom isAlnum f re st ix d = .ok (ix1, child, st1))
+    (hw : optWs re st1.flags ix1 = .ok ix2) (hb : re[ix2]? = some b)
+    (hq : quantAt re st1.flags ix2 b = .ok (some (lo, hi, qe)))
+    (hr : isRepeatable child = true)
+    (hw3 : optWs re st1.flags (qe + 1) = .ok ix3)
+    (hplus : re[afterLazy re ix3]? = some (ch '+')) :
+    parsePiece isAlnum (f + 1) re st ix d =
+      .ok (afterLazy re ix3 + 1, .atomic (repNode re st1 child lo hi ix3), st1) := by
+  rw [parsePiece_suffix isAlnum ha hw hb hq hr hw3, if_pos hplus]
+
+theorem C19_not_possessive (isAlnum : Char → Bool) {re : Bytes} {f : Nat} {st st1 : PState}
+    {ix d ix1 ix2 b lo hi qe ix3 : Nat} {child : Expr}
+    (ha : parseAtom isAlnum f re st ix d = .ok (ix1, child, st1))
+    (hw : optWs re st1.flags ix1 = .ok ix2) (hb : re[ix2]? = some b)
+    (hq : quantAt re st1.flags ix2 b = .ok (some (lo, hi, qe)))
+    (hr : isRepeatable child = true)
+    (hw3 : optWs re st1.flags (qe + 1) = .ok ix3)
+    (hplus : re[afterLazy re ix3]? ≠ some (ch '+')) :
+    parsePiece isAlnum (f + 1) re st ix d =
+      .ok (afterLazy re ix3, repNode re st1 child lo hi ix3, st1) := by
+  rw [parsePiece_suffix isAlnum ha hw hb hq hr hw3, if_neg hplus]
+
+/-- the four quantifiers -/
+theorem quantAt_star (re : Bytes) (fl : Flags) (ix : Nat) :
+    quantAt re fl ix (ch '*') = .ok (some (0, usizeMax, ix)) := by simp [quantAt, ch]; rfl
+theorem quantAt_plus (re : Bytes) (fl : Flags) (ix : Nat) :
+    quantAt re fl ix (ch '+') = .ok (some (1, usizeMax, ix)) := by simp [quantAt, ch]; rfl
+theorem quantAt_opt (re : Bytes) (fl : Flags) (ix : Nat) :
+    quantAt re fl ix (ch '?') = .ok (some (0, 1, ix)) := by simp [quantAt, ch]; rfl
+theorem quantAt_brace {re : Bytes} {fl : Flags} {ix next lo hi : Nat}
+    (h : parseRepeat re fl ix = .ok (next, lo, hi)) (hn : next ≠ 0) :
+    quantAt re fl ix (ch '{') = .ok (some (lo, hi, next - 1)) := by
+  have : (next == 0) = false := by simpa using hn
+  simp [quantAt, ch, h, this]; rfl
+
+/-- `(?>Y)`: `parse_group` at the `(` parses `Y` with `parse_re` one level deeper, expects the `)`,
+    and wraps the tree of `Y` into `AtomicGroup` — for every flag state -/
+theorem C19_atomic_group (isAlnum : Char → Bool) {re : Bytes} (f : Nat) (st : PState) {ix : Nat} (d : Nat)
+    (h1 : re[ix + 1]? = some (ch '?')) (h2 : re[ix + 2]? = some (ch '>')) :
+    parseGroup isAlnum (f + 1) re st ix d =
+      if d + 1 ≥ Generated.maxRecursion then .err .recursionExceeded ix
+      else (do
+        let (ix2, child, st2) ← parseRe isAlnum f re st (ix + 3) (d + 1)
+        let ix3 ← checkForCloseParen re st2.flags ix2
+        .ok (ix3, .atomic child, st2)) := by
+  have hws : optWs re st.flags (ix + 1) = .ok (ix + 1) := by
+    rw [optWs_step h1]
+    have e1 : (ch '?' == ch '#') = false := by decide
+    have e2 : (ch '?' == ch ' ' || ch '?' == ch '\r' || ch '?' == ch '\n' || ch '?' == ch '\t') = false := by
+      decide
+    have e3 : (ch '?' == ch '(') = false := by decide
+    simp only [e1, e2, e3, Bool.false_and, Bool.false_eq_true, ↓reduceIte]
+  have hb : isBoundary re (ix + 1) = true := isBoundary_of_ascii h1 (by decide)
+  rw [parseGroup]
+  by_cases hd : d + 1 ≥ Generated.maxRecursion
+  · simp only [hd, ↓reduceIte]
+  · have e1 : ch '>' ≠ ch '=' := by decide
+    have e2 : ch '>' ≠ ch '!' := by decide
+    have e3 : ch '>' ≠ ch '<' := by decide
+    have e4 : ch '>' ≠ ch 'P' := by decide
+    simp [hd, hws, sliceFrom, sliceFromOk, hb, lookOf, startsWithAt, h1, h2, e1, e2, e3, e4]
+
+-- the hypotheses are satisfiable: `a*+` (atom `a` ends at 1, `*` at 1, `+` at 2)
+example : parsePiece (fun c => c.isAlphanum) 3 (bytesOf "a*+".toList) {} 0 0 =
+    .ok (3, .atomic (.repeat (.literal ['a'] false) 0 none true), {}) :=
+  isOk3_sound (by decide +kernel)
+
+-- whole patterns: `X*+`, `X++`, `X?+`, `X{n,m}+`, and a lazy possessive, against `(?>…)`
+example : parseStr (fun c => c.isAlphanum) "a*+b++c?+d{1,2}+e*?+".toList false =
+    parseStr (fun c => c.isAlphanum) "(?>a*)(?>b+)(?>c?)(?>d{1,2})(?>e*?)".toList false :=
+  (isTree_sound (e := .concat [.atomic (.repeat (.literal ['a'] false) 0 none true),
+    .atomic (.repeat (.literal ['b'] false) 1 none true),
+    .atomic (.repeat (.literal ['c'] false) 0 (some 1) true),
+    .atomic (.repeat (.literal ['d'] false) 1 (some 2) true),
+    .atomic (.repeat (.literal ['e'] false) 0 none false)]) (br := []) (ng := [])
+    (by decide +kernel)).trans (isTree_sound (by decide +kernel)).symm
 end Fancy.Parse
